@@ -27,6 +27,7 @@ EXC_TREE = {
     'NameError': 'Exception', 'AssertionError': 'Exception', 'StopIteration': 'Exception',
     'RuntimeError': 'Exception', 'OSError': 'Exception', 'FileNotFoundError': 'OSError',
     'NotImplementedError': 'RuntimeError', 'UnicodeError': 'ValueError',
+    'SystemExit': 'BaseException', 'KeyboardInterrupt': 'BaseException', 'GeneratorExit': 'BaseException',
 }
 
 
@@ -514,8 +515,13 @@ def call_builtin_class(I, cls, a, k):
             return I.builtins['dict']
         raise M.Unsupported('type() of %r' % (v,))
     if n == 'deque':
-        l = PyList(I.iterate(a[0]) if a else [])
+        l = PyList(I.iterate(a[0]) if a and a[0] is not None else [])
         l.is_deque = True
+        ml = k.get('maxlen', a[1] if len(a) > 1 else None)
+        if ml is not None:
+            if not isinstance(ml, int):
+                raise M.Unsupported('deque with symbolic maxlen')
+            l.maxlen = ml
         return l
     raise M.Unsupported('call of builtin class %s' % n)
 
@@ -580,6 +586,21 @@ def builtin_attr(I, obj, name):
             if v is not _MISSING:
                 return I.bind(v, obj)
         L = obj
+        if name in ('append', 'appendleft') and getattr(L, 'maxlen', None) is not None:
+            def bounded_append(x, left=(name == 'appendleft')):
+                from .values import Segment as _Seg
+                n_ = py_len(I, L)
+                full = I.truth(I.compare('GtE', n_, L.maxlen))
+                if full:            # a full bounded deque discards an item from the opposite end
+                    if any(isinstance(y, _Seg) for y in L.items):
+                        I.seg_pop(L, left=not left)
+                    elif L.items:
+                        L.items.pop(-1 if left else 0)
+                if left:
+                    L.items.insert(0, x)
+                else:
+                    L.items.append(x)
+            return meth(bounded_append)
         if name == 'append':
             return meth(lambda x: L.items.append(x))
         if name == 'appendleft':
@@ -779,7 +800,11 @@ def builtin_attr(I, obj, name):
     from .values import SymNameOf, Struct
     if isinstance(obj, Struct) and obj.tag.startswith('str.') and hasattr(str, name) and not name.startswith('__'):
         # a string built by an uninterpreted str function: its methods are uninterpreted functions of it too
-        return meth(lambda *a, **k: Struct('str.' + name, (obj, tuple(a), tuple(sorted(k.items(), key=lambda kv: kv[0])))))
+        def smeth(*a, **k):
+            if name == 'format':
+                _format_may_raise(I)
+            return Struct('str.' + name, (obj, tuple(a), tuple(sorted(k.items(), key=lambda kv: kv[0]))))
+        return meth(smeth)
     if isinstance(obj, SymNameOf) and name == 'lower':
         fn = z3.Function('str_lower', z3.StringSort(), z3.StringSort())
         return meth(lambda: SymNameOf(fn(obj.t), obj.src, True))
@@ -789,6 +814,11 @@ def builtin_attr(I, obj, name):
                 fn = z3.Function('str_' + name, z3.StringSort(), z3.StringSort())
                 if obj.k == 'str' and name in ('lower', 'upper', 'title', 'strip'):
                     return meth(lambda *a: SymVal(fn(obj.t), 'str'))
+                if name == 'format':
+                    def sfmt(*a, **k):
+                        _format_may_raise(I)
+                        return I.opaque_str(name)
+                    return meth(sfmt)
                 return meth(lambda *a, **k: I.opaque_str(name))
             if name in ('isdecimal', 'isdigit'):
                 return meth(lambda: I.fresh('bool', name))
@@ -831,6 +861,15 @@ def builtin_attr(I, obj, name):
     if isinstance(obj, range):
         return _MISSING
     return _MISSING
+
+
+def _format_may_raise(I):
+    """str.format on a format string that is not a literal of the program (it came from data): its braces are not
+    under the program's control, so the call may raise ValueError / KeyError / IndexError"""
+    if I.spec_mode:
+        return
+    if I.branch(I.fresh('bool', 'format_string_is_malformed').t, 'format-raises'):
+        I.raise_builtin('ValueError', 'format string built from data: unmatched or unexpected brace')
 
 
 def format_symbolic(I, fmt, a, k):
